@@ -799,6 +799,8 @@ def check_pid_path(ctx):
     ctx.need(len(lp) >= 1, 'PID table lookup indexed by data_pid in USBDataPacketGenerator')
     for a in lp:
         els = [x.val if isinstance(x, E) and x.op == 'const' else None for x in a.rhs.args[1:]]
+        ctx.need(all(isinstance(v, int) for v in els), 'constant entries of the PID table (found %s)' % [
+            x.canon() if isinstance(x, E) else repr(x) for x in a.rhs.args[1:]])
         ctx.ob('C15.pid-encoding', 'USBDataPacketGenerator.data_pid-table', els[:3] == [0xC3, 0x4B, 0x87], a.loc,
                'data_pid 0/1/2 must select DATA0 (0xC3) / DATA1 (0x4B) / DATA2 (0x87): table %s' % [hex(x) if isinstance(x, int) else x for x in els])
     d = ctx.ir('USBDevice', 'usb2.device', allow_opaque=True)
